@@ -975,6 +975,80 @@ pub fn corpus_collapse_fewer_criteria() -> (CmdWorld, Project) {
     (w, p)
 }
 
+/// `cargo vet init` on a project without a store, and `regenerate audit-as-crates-io` on an
+/// existing one: C10 — init leaves a store that vets (there is nothing a violation could
+/// contradict); after regenerating the audit-as-crates-io policy an unlocked check is no longer
+/// refused over it.  First-party crates may have crates.io namesakes with matching metadata.
+pub fn init_history(r: &mut Report, rng: &mut Rng, idx: u64) {
+    r.evaluations += 1;
+    let mut w = cmd::gen_cmd_world(rng, true);
+    // half of the first-party crates with a crates.io namesake look like it (same description)
+    for q in w.graph.pkgs.iter().filter(|q| q.source != 1) {
+        if w.remote.registry.contains_key(&q.name) && rng.chance(1, 2) {
+            w.remote.matching_metadata.insert(q.name.clone());
+        }
+    }
+    // (init starts from nothing: no policy the generator may have put on these crates)
+    w.remote.install();
+    let md = w.graph.metadata();
+    let root = std::env::var("VERIF_WORK").map(PathBuf::from).unwrap_or_else(|_| std::env::temp_dir());
+    fs::create_dir_all(&root).unwrap();
+    let dir = tempfile::Builder::new().prefix("vetinit").tempdir_in(root).unwrap();
+    let p = Project { dir, md };
+    let case = format!("init-history#{idx}: packages {:?}; registry {:?}; matching {:?}", w.graph.pkgs.iter().map(|q| format!("{}:{} src{} member={}", q.name, q.version, q.source, q.member)).collect::<Vec<_>>(), w.remote.registry.keys().collect::<Vec<_>>(), w.remote.matching_metadata);
+    let (o, text) = p.run(&["init"]);
+    r.count(&format!("ucmd:init:{}", match &o { Outcome::Ok => "ok", Outcome::Exit(_) => "exit", Outcome::Err(_) => "refused", Outcome::Panic(_) => "panic" }));
+    r.oracle_checked += 1;
+    match &o {
+        Outcome::Panic(m) => {
+            r.fail("oracle", "C10/ucmd/init-panics", m.clone(), &case);
+            return;
+        }
+        Outcome::Ok => {}
+        other => {
+            // init may refuse a project (e.g. a policy problem it cannot repair); it must not then leave a store
+            let _ = (other, text);
+            return;
+        }
+    }
+    let files = p.files();
+    let full = format!("{case}\n--- audits.toml\n{}\n--- config.toml\n{}\n--- imports.lock\n{}", files[0], files[1], files[2]);
+    for args in [&[][..], &["--locked"][..]] {
+        let (o2, text2) = p.run(args);
+        r.oracle_checked += 1;
+        if o2 != Outcome::Ok && r.prop == "C10" {
+            r.fail("oracle", "C10/ucmd/init-leaves-failing-store", format!("after `init`, `check {}` gives {o2:?}: {}", args.join(" "), text2.chars().take(300).collect::<String>()), &full);
+        }
+    }
+    r.nontrivial(&case);
+    // regenerate audit-as-crates-io after the policy was damaged: drop every audit-as-crates-io choice
+    let Some(mut st) = load(&files) else { return };
+    let mut changed = false;
+    for (_, e) in st.config.policy.package.iter_mut() {
+        match e {
+            PackagePolicyEntry::Unversioned(pe) => { if pe.audit_as_crates_io.take().is_some() { changed = true; } }
+            PackagePolicyEntry::Versioned { version } => { for pe in version.values_mut() { if pe.audit_as_crates_io.take().is_some() { changed = true; } } }
+        }
+    }
+    if !changed {
+        return;
+    }
+    p.write(&st.mock_commit());
+    let (o3, _) = p.run(&["regenerate", "audit-as-crates-io"]);
+    r.count(&format!("ucmd:regenerate-audit-as:{}", match &o3 { Outcome::Ok => "ok", Outcome::Exit(_) => "exit", Outcome::Err(_) => "refused", Outcome::Panic(_) => "panic" }));
+    if let Outcome::Panic(m) = &o3 {
+        r.fail("oracle", "C10/ucmd/regenerate-audit-as-panics", m.clone(), &full);
+        return;
+    }
+    if o3 == Outcome::Ok {
+        let (o4, text4) = p.run(&[]);
+        r.oracle_checked += 1;
+        if matches!(o4, Outcome::Err(_)) && r.prop == "C08" {
+            r.fail("oracle", "C08/ucmd/regenerate-audit-as-does-not-settle", format!("after `regenerate audit-as-crates-io` a check is still refused: {o4:?} {}", text4.chars().take(200).collect::<String>()), &full);
+        }
+    }
+}
+
 pub fn run(r: &mut Report) {
     let mut d = Driver::spawn();
     let (shard, nshards) = shard();
@@ -1016,6 +1090,12 @@ pub fn run(r: &mut Report) {
         let w = if i % 6 == 5 { cmd::gen_unpublished_world(&mut crng) } else { cmd::gen_cmd_world(&mut crng, false) };
         let p = cmd::setup_project(&w);
         exec_user_history(r, &mut d, &mut crng, i + 1, w, p, None);
+    }
+    if r.prop == "C10" || r.prop == "C08" {
+        for i in 0..n / 4 {
+            let mut crng = rng.fork();
+            init_history(r, &mut crng, i + 1);
+        }
     }
     r.count_n("driver-requests", d.requests);
     *crate::network::VERIF_MOCK_NETWORK.lock().unwrap() = None;
